@@ -595,6 +595,14 @@ class Gen:
             if not rs:
                 return None
             o["resources"] = sorted(rng.sample(rs, rng.randint(1, len(rs))))
+        elif kind == "MinimizeFlowtimeSingleResource":
+            rs = self._assigned_resources(minbusy=1, allow_cumulative=False)
+            if not rs:
+                return None
+            o["resource"] = rng.choice(rs)
+            # (no time_interval: when no task of the resource lies inside it, the flowtime is a
+            #  difference of two unconstrained unknowns - bounded below by 0 but starting from
+            #  wherever z3 likes, i.e. not a bounded objective in the sense of C07)
         elif kind in ("MaximizeMaxBufferLevel", "MinimizeMaxBufferLevel"):
             if not spec["buffers"]:
                 return None
